@@ -68,6 +68,19 @@ Example former_refutations_now_hold :
      /\ fvar_axis_ids (extend nm (alloc nm ex_axes [])) ex_axes = [Some 257].
 Proof. repeat split; reflexivity. Qed.
 
+(* two source records above 255 that share a string, the largest id among them
+   (reusable_names, keyed by the string, keeps only one of the two keys): numbering
+   still starts after the largest SOURCE id, in both iteration orders *)
+Example shared_string_above_255_keeps_both_records :
+  let nm := [((1, 1), [70]); ((2, 1), [82]); ((256, 1), [65]); ((257, 1), [65])] in
+  let nm' := [((257, 1), [65]); ((1, 1), [70]); ((256, 1), [65]); ((2, 1), [82])] in
+  let insts := [{| i_name := [66]; i_ps := None; i_loc := [700%Z] |}] in
+  same_names (extend nm (alloc nm ex_axes insts))
+    [((1, 1), [70]); ((2, 1), [82]); ((256, 1), [65]); ((257, 1), [65]); ((258, 1), [87]); ((259, 1), [66])] = true
+  /\ same_names (extend nm' (alloc nm' ex_axes insts)) (extend nm (alloc nm ex_axes insts)) = true
+  /\ length (reusable0 nm) = 1%nat.
+Proof. repeat split; reflexivity. Qed.
+
 (* Ids below 256 are used only where the specification allows — unconditionally:
    whatever id reusable_name_id returns for an instance is >= 256, or 2 / 17 and
    then the instance is the default one; for axes and PostScript names it is >= 256. *)
